@@ -1556,6 +1556,36 @@ Section NieceViewFacts.
   Qed.
 End NieceViewFacts.
 
+(** * Trailing data is left alone
+    a valid stream followed by anything restores to the same image and reports exactly the
+    length of the valid stream as consumed *)
+Theorem pollard_roundtrip_trailing_proof img rest :
+  wf_pimage img ->
+  decode_pollard (encode_pollard img ++ rest) = Ok (img, length (encode_pollard img)).
+Proof.
+  intros Hwf. unfold decode_pollard, decode_pollard_gen.
+  assert (Hh : Forall (fun t => (ptree_height t < S (length (encode_pollard img ++ rest)))%nat)
+                      (p_roots img)).
+  { eapply Forall_impl; [|exact (heights_bound img Hwf)]. cbv beta. intros t Ht.
+    rewrite app_length. lia. }
+  destruct (codec_pollard_parser img _ Hwf Hh) as [Hp _].
+  rewrite Hp. now rewrite pollard_check_wf.
+Qed.
+
+Theorem map_roundtrip_trailing_proof img rest :
+  wf_mimage img ->
+  decode_map (encode_map img ++ rest) = Ok (img, length (encode_map img)).
+Proof.
+  intros Hwf. unfold decode_map, decode_map_gen.
+  destruct (map_fuel_bound img) as [Hc Hn].
+  assert (Hc' : (length (m_cached img) < S (length (encode_map img ++ rest)))%nat)
+    by (rewrite app_length; lia).
+  assert (Hn' : (length (m_nodes img) < S (length (encode_map img ++ rest)))%nat)
+    by (rewrite app_length; lia).
+  destruct (codec_map_parser img _ Hwf Hc' Hn') as [Hp _].
+  rewrite Hp. now rewrite map_check_wf.
+Qed.
+
 (** * Any reader: the theorems above, restated for chunked readers *)
 Theorem pollard_any_reader_proof img cs e :
   wf_pimage img ->
